@@ -55,6 +55,7 @@ type progCfg struct {
 	nOps      int
 	endings   []int // allowed endings
 	checkInTx bool
+	extent    uint // if > 0: page ids may reach this bound (file shrunk below its extent)
 	concrete  bool // page contents are concrete sequence numbers instead of solver variables
 }
 
@@ -152,7 +153,7 @@ func (s *progState) checkOwnership(w *refModel, id PageID) {
 	verifAssert(s.m.find(id) < 0, "allocated page is not live in (or freed from) the committed state")
 	verifAssert(!s.isInternal(id), "allocated page is not used by the file's internal metadata")
 	if s.cfg.maxPages > 0 && !s.cfg.overflow {
-		verifAssert(uint(id) < s.cfg.maxPages, "allocated page lies within the configured maximum size")
+		verifAssert(uint(id) < maxU(s.cfg.maxPages, s.cfg.extent), "allocated page lies within the configured maximum size (or the extent the file had before it was shrunk)")
 	}
 }
 
